@@ -243,12 +243,14 @@ Print Assumptions C13_delay_ge_dead_time_and_passthrough_adiabatic.
    starts EXACTLY at the start of the flat top (so never before it); gz.delay is a non-negative multiple of the
    gradient raster and less than one raster later than necessary; the amplitude respects max_grad (+eps);
    rephaser area = -(flat area after the centre + half the ramp area) = the code's formula; for centre 1/2 it is
-   minus half of the slice-select area *)
+   minus half of the slice-select area.  Hypotheses: positive gradient raster not below eps = 1e-9 s (make_trapezoid
+   snaps a flat time in (-eps, 0) to 0), positive max_grad, non-negative duration (make_gauss_pulse accepts
+   negative ones). *)
 Theorem C13_slice_select_shaped :
   forall gauss Sy pi w flip delay duration dwell0 cp fo po bw0 tbw rgz th mg ms use r gz gzr,
   make_shaped gauss (if gauss then gauss_x else sinc_x) Sy pi w flip delay duration dwell0 cp fo po bw0 tbw rgz th mg ms use
     = Ok (r, Some (gz, gzr)) ->
-  0 < s_grad_raster Sy -> 0 < override mg (s_max_grad Sy) ->
+  rf_eps <= s_grad_raster Sy -> 0 < s_grad_raster Sy -> 0 < override mg (s_max_grad Sy) -> 0 <= duration ->
   let bandwidth := shaped_bandwidth gauss bw0 tbw duration in
   (* gz_flat_top *)
   g_flat gz = duration /\ g_amp gz == bandwidth / th /\ g_flat_area gz == bandwidth / th * duration /\
@@ -265,9 +267,9 @@ Theorem C13_slice_select_shaped :
   g_area gzr == - (g_flat_area gz) * (1 - cp) - (1 # 2) * (g_area gz - g_flat_area gz) /\
   (cp == 1 # 2 -> g_area gzr == - (g_area gz / 2)).
 Proof.
-  intros gauss Sy pi w flip delay duration dwell0 cp fo po bw0 tbw rgz th mg ms use r gz gzr H Hr Hmg bandwidth.
+  intros gauss Sy pi w flip delay duration dwell0 cp fo po bw0 tbw rgz th mg ms use r gz gzr H Hre Hr Hmg Hdur bandwidth.
   assert (SP : shaped_spec (if gauss then gauss_x else sinc_x)) by (destruct gauss; [apply gauss_spec|apply sinc_spec]).
-  destruct (shaped_gz _ _ SP _ _ _ _ _ _ _ _ _ _ _ _ _ _ _ _ _ _ _ H gz gzr eq_refl Hr Hmg)
+  destruct (shaped_gz _ _ SP _ _ _ _ _ _ _ _ _ _ _ _ _ _ _ _ _ _ _ H gz gzr eq_refl Hre Hr Hmg Hdur)
     as (_ & _ & A & B & C & D & E & F & G & I & J & K & L & M).
   repeat split; auto. rewrite F. apply Qle_refl.
 Qed.
@@ -276,7 +278,7 @@ Print Assumptions C13_slice_select_shaped.
 Theorem C13_slice_select_arbitrary :
   forall Sy pi w flip bw0 delay dwell0 fo po noscale mg ms rgz th tbw use r gz,
   make_arbitrary Sy pi w flip bw0 delay dwell0 fo po noscale mg ms rgz th tbw use = Ok (r, Some gz) ->
-  0 < s_grad_raster Sy ->
+  0 < s_grad_raster Sy -> 0 <= eff_dwell Sy dwell0 ->
   let duration := arb_duration (inject_Z (Z.of_nat (length w))) (eff_dwell Sy dwell0) in
   g_flat gz = duration /\ r_shape_dur r = duration /\ g_amp gz == arb_bandwidth bw0 tbw duration / th /\
   g_fall gz = g_rise gz /\
@@ -284,8 +286,11 @@ Theorem C13_slice_select_arbitrary :
   (exists k : Z, (0 <= k)%Z /\ g_delay gz == inject_Z k * s_grad_raster Sy) /\
   r_delay r == g_delay gz + g_rise gz.
 Proof.
-  intros Sy pi w flip bw0 delay dwell0 fo po noscale mg ms rgz th tbw use r gz H Hr duration.
-  destruct (arb_gz _ _ _ _ _ _ _ _ _ _ _ _ _ _ _ _ _ _ H gz eq_refl Hr) as (_ & _ & A & B & C & D & E & F & _).
+  intros Sy pi w flip bw0 delay dwell0 fo po noscale mg ms rgz th tbw use r gz H Hr Hdw duration.
+  assert (Hdur : 0 <= duration).
+  { unfold duration, arb_duration. apply Qmult_le_0_compat; [|exact Hdw].
+    change 0 with (inject_Z 0). rewrite <- Zle_Qle. apply Nat2Z.is_nonneg. }
+  destruct (arb_gz _ _ _ _ _ _ _ _ _ _ _ _ _ _ _ _ _ _ H gz eq_refl Hr Hdur) as (_ & _ & A & B & C & D & E & F & _).
   destruct (arb_fields _ _ _ _ _ _ _ _ _ _ _ _ _ _ _ _ _ _ H) as (_ & _ & SD & _).
   repeat split; auto.
 Qed.
@@ -297,7 +302,7 @@ Print Assumptions C13_slice_select_arbitrary.
 Theorem C13_slice_select_adiabatic :
   forall Sy delay duration dwell0 fo po rgz th bw tc use r gz gzr,
   make_adiabatic_timing Sy delay duration dwell0 fo po rgz th bw tc use = Ok (r, Some (gz, gzr)) ->
-  0 < s_grad_raster Sy -> 0 < s_max_grad Sy ->
+  rf_eps <= s_grad_raster Sy -> 0 < s_grad_raster Sy -> 0 < s_max_grad Sy -> 0 <= duration ->
   g_flat gz = duration /\ g_amp gz == bw / th /\ g_fall gz = g_rise gz /\
   (exists k : Z, (1 <= k)%Z /\ g_rise gz = inject_Z k * s_grad_raster Sy) /\
   (exists k : Z, (0 <= k)%Z /\ g_delay gz == inject_Z k * s_grad_raster Sy) /\
@@ -306,8 +311,8 @@ Theorem C13_slice_select_adiabatic :
   (adia_center_pos tc duration == tc / duration ->
      g_area gzr == - (g_amp gz * (duration - tc) + g_amp gz * g_fall gz / 2)).
 Proof.
-  intros Sy delay duration dwell0 fo po rgz th bw tc use r gz gzr H Hr Hmg.
-  destruct (adia_gz _ _ _ _ _ _ _ _ _ _ _ _ _ H gz gzr eq_refl Hr Hmg) as (_ & _ & A & B & C & D & E & F & G & I).
+  intros Sy delay duration dwell0 fo po rgz th bw tc use r gz gzr H Hre Hr Hmg Hdur.
+  destruct (adia_gz _ _ _ _ _ _ _ _ _ _ _ _ _ H gz gzr eq_refl Hre Hr Hmg Hdur) as (_ & _ & A & B & C & D & E & F & G & I).
   repeat split; auto.
 Qed.
 Print Assumptions C13_slice_select_adiabatic.
